@@ -73,6 +73,18 @@ def _events(args):
         except Exception as ex:
             ev.append(["alt", list(R), Vj, 0, G, ["x", "ctor:" + type(ex).__name__]])
             continue
+        if rnd.random() < 0.3:
+            # the same haplotype built the way the VCF / data-model path builds it (marshmallow model -> object on the
+            # given parent): from here on it is the object under test
+            try:
+                from inscripta.biocantor.io.models import VariantIntervalCollectionModel
+
+                mdl = VariantIntervalCollectionModel.Schema().load(coll.to_dict())
+                coll = mdl.to_variant_interval_collection(par)
+                vis = list(coll.variant_intervals)
+            except Exception as ex:
+                ev.append(["alt", list(R), Vj, 0, G, ["x", "model:" + type(ex).__name__]])
+                continue
         ws, we = window if window else (0, G)
         ev.append(["alt", list(R), Vj, ws, we, E.outcome(lambda: list(str(
             (vis[0] if len(vis) == 1 and rnd.random() < 0.5 else coll).alternative_genomic_sequence)))])
